@@ -312,7 +312,9 @@ func bodyDial(r *sim.Run) {
 // noWellKnown is the world as seen when no well-known document can be fetched.
 type noWellKnown struct{ z *zone }
 
-func (w noWellKnown) WellKnown(string) ref.WellKnownReply { return ref.WellKnownReply{NoResponse: true} }
+func (w noWellKnown) WellKnown(string) ref.WellKnownReply {
+	return ref.WellKnownReply{NoResponse: true}
+}
 func (w noWellKnown) SRV(service, h string) ref.SRVAnswer { return w.z.srvTruth(service, h) }
 
 func (w *dialWorld) pickTarget() string {
